@@ -8,15 +8,17 @@ from props import solver_common as sc
 
 ID = 'C06'
 PROPS_FILE = 'Props/C06.v'
-MODEL_FILES = ['Solver/Solver.v', 'Solver/SolverF.v', 'Solver/SolveAll.v', 'Solver/SolveAllSpan.v', 'Solver/SolveAllF.v']
-K_NAME = ('K_faults (Solver.solve_t_M / SolveAll.solve_M instantiated with PrimFloat vs BaseModel.solve_t / solve on scripted models '
+MODEL_FILES = ['Solver/Solver.v', 'Solver/SolverF.v', 'Solver/SolveAll.v', 'Solver/SolveAllSpan.v', 'Solver/SolveAllPeriod.v', 'Solver/SolveAllF.v',
+               'Solver/SolveAllHistF.v']
+K_NAME = ('K_faults + K_history (Solver.solve_t_M / SolveAll.solve_M / SolveAllHistF.run_hist instantiated with PrimFloat vs BaseModel.solve_t / solve / solve_period on scripted models '
           'and on parser-built models whose recorded per-pass columns are the script)')
 RULE = ('every placement of a fault kind {NaN, +inf, -inf, warning-raising statement, Python exception} at (statement 0..2, pass 1..4, '
         'period 0..2) x errors in {raise, skip, ignore, replace, bogus} x failures x catch_first_error, with min_iter/max_iter drawn around the '
         'fault pass (fault on the last permitted pass, before min_iter, after max_iter), healing and persisting faults, pre-existing non-finite '
         'check cells, pre- and post-hooks that raise, store or issue a warning, both spellings of t; random multi-fault scripts; parser-built models producing the fault naturally (1/X, log(X), '
         'exp(X)*exp(X), X/X, 1/0, growth to overflow, a fault in a later equation / a later pass); multi-period solve() with a fault in one '
-        'period. Non-trivial = a fault was actually reached (non-finite check vector, warning, exception or pre-existing non-finite cell) '
+        'period; histories of 2..6 public solver calls (solve_t / solve_period / solve, each with its own options) on ONE instance over 12 span '
+        'types, final state and every outcome compared with SolveAllHistF.run_hist. Non-trivial = a fault was actually reached (non-finite check vector, warning, exception or pre-existing non-finite cell) '
         'or at least two passes ran; distinct by hash of the whole case.')
 TRUSTED = ['scripted-model subclass harness/scripted.py (same script is the Coq oracle)',
            'parser-built models: the recording subclass of harness/props/C06.py turns the columns observed after each pass into the script']
@@ -38,6 +40,8 @@ def impl(case):
         return impl_parsed(case)
     if kind == 'multi':
         return sc.impl_solve(case)
+    if kind == 'hist':
+        return sc.impl_hist(case)
     return sc.impl_solve_t(case)
 
 
@@ -249,6 +253,55 @@ def multi_case(rng):
     return c
 
 
+HIST_TYPES = ['range', 'list_str', 'tuple_str', 'np_int', 'np_str', 'pd_int', 'pd_str', 'period_qm', 'range0', 'list_dupin', 'np_dupin_nm', 'pd_dupin']
+
+
+def hist_case(rng):
+    """A history of public solver calls on one instance: solve_t / solve_period / solve in random order, each with its own options;
+    the scripts of the periods contain faults, so statuses '.', 'F', 'E', 'S' all occur and get overwritten by later calls."""
+    n = rng.choice([2, 3, 4])
+    st = rng.choice(HIST_TYPES)
+    c = sc.solve_case(span_type=st, n=n, nvars=2, check=(0,), endo=(0,), lags=rng.choice([0, 0, 0, 1]), leads=rng.choice([0, 0, 0, 1]))
+    c['kind'] = 'hist'
+    del c['opts'], c['start'], c['end'], c['entry']
+    scripts = {}
+    for p in range(n):
+        r = rng.random()
+        v = 1.5 + p
+        vals = [1.0 + p, v, v, v]
+        if r < 0.25:
+            vals[rng.randrange(3)] = rng.choice(list(BADV.values()))
+        elif r < 0.35:
+            vals = [1.0, 2.0, 1.0, 2.0]
+        passes = sc.settle_passes(0, vals)
+        if 0.35 <= r < 0.45:
+            passes[rng.randrange(3)] = [['raise', rng.choice([10, 12])]]
+        elif 0.45 <= r < 0.55:
+            passes[rng.randrange(3)] = [['warnset', 0, lib.fhex(rng.choice([float('inf'), 3.0]))]]
+        scripts[str(p)] = {'passes': passes}
+        if rng.random() < 0.05:
+            scripts[str(p)]['after' if rng.random() < 0.5 else 'before'] = [['raise', 13]]
+    c['scripts'] = scripts
+    specs = sc.label_specs(st, n)
+    calls = []
+    for _ in range(rng.randint(2, 6)):
+        mx = rng.choice([1, 2, 3, 4, 5])
+        o = dict(min_iter=rng.choice([0, 0, 1, 2, mx]) if rng.random() < 0.9 else mx + 1, max_iter=mx, tol=lib.fhex(1e-10), offset=rng.choice([0, 0, 0, 0, -1, 1]),
+                 failures=rng.choice(['raise', 'ignore']), errors=rng.choice(ERR5[:4] + ['raise', 'skip']) if rng.random() < 0.95 else 'bogus',
+                 catch_first_error=rng.random() < 0.5)
+        o['min_iter'] = min(o['min_iter'], mx + 1)
+        api = rng.choice(['solve_t', 'solve_t', 'solve_period', 'solve'])
+        if api == 'solve_t':
+            p = rng.randrange(n)
+            calls.append({'api': api, 't': p if rng.random() < 0.7 else p - n, 'opts': o})
+        elif api == 'solve_period':
+            calls.append({'api': api, 'start': rng.choice(specs[1:]), 'opts': o})
+        else:
+            calls.append({'api': api, 'start': rng.choice(specs), 'end': rng.choice(specs), 'opts': o})
+    c['calls'] = calls
+    return c
+
+
 def gen(rng, tier):
     cases = []
     # fixed corpus first: the known finding's minimal input and its neighbours
@@ -280,14 +333,21 @@ def gen(rng, tier):
         cases.append(parsed_case(rng))
     for _ in range(250 if tier == 'quick' else 3000):
         cases.append(multi_case(rng))
+    for _ in range(300 if tier == 'quick' else 3000):
+        cases.append(hist_case(rng))
     return cases
 
 
 # --------------------------------------------------------------------------- correspondence
 def correspond(cases, obs, tag, tier):
-    single = [(i, view(c, o), o) for i, (c, o) in enumerate(zip(cases, obs)) if c.get('kind') != 'multi']
+    single = [(i, view(c, o), o) for i, (c, o) in enumerate(zip(cases, obs)) if c.get('kind') not in ('multi', 'hist')]
     multi = [(i, c, o) for i, (c, o) in enumerate(zip(cases, obs)) if c.get('kind') == 'multi']
+    hist = [(i, c, o) for i, (c, o) in enumerate(zip(cases, obs)) if c.get('kind') == 'hist']
     bad, errs = [], []
+    if hist:
+        b, e = sc.correspond_hist([x[1] for x in hist], [x[2] for x in hist], tag + 'c')
+        bad += [hist[j][0] for j in b]
+        errs += e
     if single:
         b, e = sc.correspond_solve_t([x[1] for x in single], [x[2] for x in single], tag + 'a')
         bad += [single[j][0] for j in b]
@@ -302,6 +362,8 @@ def correspond(cases, obs, tag, tier):
 def explain(case, obs):
     if case.get('kind') == 'multi':
         return sc.explain_solve(case, obs)
+    if case.get('kind') == 'hist':
+        return sc.explain_hist(case, obs)
     return sc.explain_solve_t(view(case, obs), obs)
 
 
@@ -328,7 +390,7 @@ def _local_finite(seq, max_iter):
 def guard(case, obs):
     """The class of finding #5: errors='replace' and some pass was started from a LOCAL vector that had been zeroed, i.e. after a
     pass that left non-finite stored check values (there the model mirrors the defect; only the oracle speaks)."""
-    if case.get('kind') == 'multi':
+    if case.get('kind') in ('multi', 'hist'):
         return False
     c = view(case, obs)
     if c['opts']['errors'] != 'replace':
@@ -340,9 +402,49 @@ def guard(case, obs):
     return any(loc[k] and not _fin(seq[k]) for k in range(1, m))
 
 
+def oracle_hist(case, obs):
+    """Statuses are always one of '-', '.', 'F', 'E', 'S' — after ANY history of solver calls: every period ends with its initial
+    status or '.', 'F', 'S' (only if some call of the history had errors='skip'), 'E' (only if some call had errors='raise');
+    the series keep their length; a call that returns a flag returns True exactly for '.'."""
+    fails = []
+
+    def bad(sig, what):
+        fails.append({'sig': 'C06|history|' + sig, 'what': what})
+    n = case['n']
+    modes = {c['opts']['errors'] for c in case['calls']}
+    if len(obs['status']) != n or len(obs['iters']) != n:
+        bad('length', 'status / iterations series changed length: %d / %d for %d periods' % (len(obs['status']), len(obs['iters']), n))
+    for k, snap in enumerate(obs['snaps']):
+        prev = case['status'] if k == 0 else obs['snaps'][k - 1]
+        for q, x in enumerate(snap):
+            if x not in ('-', '.', 'F', 'E', 'S'):
+                bad('alphabet', 'call %d left status %r at period %d' % (k, x, q))
+            elif x != prev[q]:
+                e = case['calls'][k]['opts']['errors']
+                if (x == 'S' and e != 'skip') or (x == 'E' and e != 'raise') or x == '-':
+                    bad('status-vs-policy', 'call %d (errors=%r) wrote status %r at period %d' % (k, e, x, q))
+        call, out = case['calls'][k], obs['outs'][k]
+        if out[0] == 'ret':
+            if call['api'] == 'solve':
+                for lab, t, b in zip(out[1], out[2], out[3]):
+                    pass        # a later period of the same call may not rewrite an earlier one: flags are checked on the snapshot
+                if any((b is True) != (snap[t] == '.') for t, b in zip(out[2], out[3])):
+                    bad('flag-iff-dot', 'call %d: solve() flags %s for positions %s, statuses %s' % (k, out[3], out[2], snap))
+            elif call['api'] == 'solve_t':
+                p = call['t'] if call['t'] >= 0 else call['t'] + n
+                if (out[1] is True) != (snap[p] == '.'):
+                    bad('flag-iff-dot', 'call %d: solve_t returned %s with status %r' % (k, out[1], snap[p]))
+    for q, x in enumerate(obs['status']):
+        if x != case['status'][q] and ((x == 'S' and 'skip' not in modes) or (x == 'E' and 'raise' not in modes)):
+            bad('status-vs-policy', 'period %d ends %r although no call of the history had the policy that writes it (%s)' % (q, x, sorted(modes)))
+    return fails
+
+
 def oracle(case, obs):
     if case.get('kind') == 'multi':
         return oracle_multi(case, obs)
+    if case.get('kind') == 'hist':
+        return oracle_hist(case, obs)
     fails = []
 
     def bad(sig, what):
@@ -507,6 +609,8 @@ def oracle_multi(case, obs):
 def nontrivial(case, obs):
     if case.get('kind') == 'multi':
         return True
+    if case.get('kind') == 'hist':
+        return len(set(obs['status'])) >= 2 or any(o[0] == 'raise' for o in obs['outs'])
     c = view(case, obs)
     p = _pos(c)
     c0 = [lib.unhex(c['vals'][i][p]) for i in c['check']]
@@ -516,6 +620,8 @@ def nontrivial(case, obs):
 
 def bucket(case, obs):
     kind = case.get('kind', 'scripted')
+    if kind == 'hist':
+        return 'hist/%d calls/%s' % (len(case['calls']), ''.join(sorted(set(obs['status']))))
     c = case if kind == 'multi' else view(case, obs)
     out = obs['out']
     res = out[1] if out[0] == 'raise' else ('ret' if kind == 'multi' else ('solved' if out[1] else 'unsolved:' + obs['status'][_pos(c)]))
@@ -523,6 +629,13 @@ def bucket(case, obs):
 
 
 def shrink_candidates(case):
+    if case.get('kind') == 'hist':
+        for i in reversed(range(len(case['calls']))):
+            if len(case['calls']) > 1:
+                c = copy.deepcopy(case)
+                del c['calls'][i]
+                yield c
+        return
     if case.get('kind') == 'multi':
         return              # the fault pass and the option values are tied together by the generator
     if case.get('kind') == 'parsed':
